@@ -19,6 +19,7 @@ import (
 	"sync"
 	"sync/atomic"
 	"time"
+	_ "time/tzdata"
 
 	"github.com/rogpeppe/go-internal/cache"
 
@@ -387,6 +388,11 @@ func newWorker(root string, n int, ops []opDef) *worker {
 // family to place "now" at several positions within the hour).
 var clockBase time.Duration
 
+// clockStart, if set, replaces the fixed start instant (used to run the
+// store-lookup-trim family on clocks in a zone with daylight saving time, a few
+// days after each of the two transitions of a year).
+var clockStart *time.Time
+
 func (w *worker) fresh() *env {
 	w.seq++
 	nd := filepath.Join(w.base, fmt.Sprintf("h%d", w.seq))
@@ -415,6 +421,9 @@ func (w *worker) fresh() *env {
 	// not at the real time: whether a defect that rounds times to the hour shows
 	// must not depend on when the check is run. clockBase may move it.
 	e.t0 = time.Date(2026, 10, 2, 12, 7, 11, 0, time.UTC).Add(clockBase)
+	if clockStart != nil {
+		e.t0 = clockStart.Add(clockBase)
+	}
 	e.clk = e.t0
 	e.c = cache.WithDirVerif(w.tmpl, nd)
 	cache.SetNowVerif(e.c, e.now)
@@ -602,6 +611,7 @@ type kase struct {
 	// Base: shift of the virtual clock's start (store-lookup-trim family)
 	Base   time.Duration `json:"clock_base,omitempty"`
 	Family string        `json:"family,omitempty"` // "slt": the store-lookup-trim family
+	Clock  string        `json:"clock,omitempty"`  // "", "New York, 5 March", "New York, 29 October"
 }
 
 func violClass(v string) string {
@@ -634,7 +644,17 @@ func main() {
 			return nil
 		}
 		clockBase = c.Base
-		defer func() { clockBase = 0 }()
+		if ny, err := time.LoadLocation("America/New_York"); err == nil {
+			switch c.Clock {
+			case "New York, 5 March":
+				t := time.Date(2026, 3, 5, 9, 7, 11, 0, ny)
+				clockStart = &t
+			case "New York, 29 October":
+				t := time.Date(2026, 10, 29, 9, 7, 11, 0, ny)
+				clockStart = &t
+			}
+		}
+		defer func() { clockBase, clockStart = 0, nil }()
 		v, at, _ := w.run(c.Steps)
 		if v == "" {
 			return nil
@@ -644,7 +664,7 @@ func main() {
 			names = append(names, w.stepName(s))
 		}
 		if c.Family == "slt" {
-			return []kit.V{{Key: violClass(v) + fmt.Sprintf(" clock+%v history=", c.Base) + strings.Join(names, "; "), What: v, Case: c}}
+			return []kit.V{{Key: violClass(v) + fmt.Sprintf(" clock+%v%s history=", c.Base, c.Clock) + strings.Join(names, "; "), What: v, Case: c}}
 		}
 		return []kit.V{{Key: violClass(v) + " history=" + strings.Join(names, "; "), What: v, Case: c}}
 	}
@@ -776,8 +796,24 @@ func main() {
 	for i, o := range ops {
 		opIdx[o.name] = i
 	}
-	for _, base := range []time.Duration{0, 30 * time.Minute, 52*time.Minute + 40*time.Second} {
+	type clockCase struct {
+		name  string
+		start *time.Time
+		base  time.Duration
+	}
+	clocks := []clockCase{{"", nil, 0}, {"", nil, 30 * time.Minute}, {"", nil, 52*time.Minute + 40*time.Second}}
+	if ny, err := time.LoadLocation("America/New_York"); err == nil {
+		// three days before the clocks go forward / back, so that a trim five days
+		// later looks back across the change: a cutoff computed in calendar days would
+		// be an hour off
+		spring := time.Date(2026, 3, 5, 9, 7, 11, 0, ny)
+		autumn := time.Date(2026, 10, 29, 9, 7, 11, 0, ny)
+		clocks = append(clocks, clockCase{"New York, 5 March", &spring, 0}, clockCase{"New York, 29 October", &autumn, 0})
+	}
+	for _, ck := range clocks {
+		base := ck.base
 		clockBase = base
+		clockStart = ck.start
 		for _, first := range []string{"Put(A,X)", "Put(B,X)"} {
 			for _, look := range []string{"Get(A)", "GetBytes(A)", "GetFile(A)", "Put(A,X)"} {
 				if first == "Put(B,X)" && look != "Put(A,X)" {
@@ -795,7 +831,7 @@ func main() {
 							for _, s := range st[:at+1] {
 								names = append(names, workers[0].stepName(s))
 							}
-							r.Violation(violClass(v)+fmt.Sprintf(" clock+%v history=", base)+strings.Join(names, "; "), fmt.Sprintf("clock started %v into the hour; after %s: %s", 7*time.Minute+11*time.Second+base, strings.Join(names, "; "), v), kase{Kind: "history", Steps: st, Names: names, Base: base, Family: "slt"})
+							r.Violation(violClass(v)+fmt.Sprintf(" clock+%v%s history=", base, ck.name)+strings.Join(names, "; "), fmt.Sprintf("clock %s started %v into the hour; after %s: %s", ck.name, 7*time.Minute+11*time.Second+base, strings.Join(names, "; "), v), kase{Kind: "history", Steps: st, Names: names, Base: base, Family: "slt", Clock: ck.name})
 						}
 					}
 				}
@@ -803,6 +839,7 @@ func main() {
 		}
 	}
 	clockBase = 0
+	clockStart = nil
 	r.Set("store_lookup_trim_histories", slt)
 
 	// ----- populations -----
